@@ -201,6 +201,14 @@ func VerifC12Submit() {
 		rt.EnableConnectionReuse()
 	}
 	parent := context.WithValue(context.Background(), c12Ctx{}, "parent")
+	// the caller's context may carry a (later) deadline of its own: the effective
+	// deadline is the shorter of the two
+	parentDL := zv.Choose("callers-context-has-a-deadline", 2) == 1
+	if parentDL {
+		var cancelParent context.CancelFunc
+		parent, cancelParent = context.WithTimeout(parent, time.Hour)
+		defer cancelParent()
+	}
 	rt.Context = parent
 
 	handedOver := false
@@ -300,9 +308,12 @@ func VerifC12Submit() {
 	zv.Assert("request-reaches-the-transport-once", tr.calls == 1)
 	// the request context: derived from the caller's, bounded by the timeout, cancelled on return
 	zv.Assert("request-context-derives-from-the-callers", tr.ctx != nil && tr.ctx.Value(c12Ctx{}) == "parent")
-	if timeoutSet {
+	switch {
+	case timeoutSet:
 		zv.Assert("timeout-bounds-the-exchange", tr.hadDL && tr.remain <= 30*time.Second && tr.remain > 20*time.Second)
-	} else {
+	case parentDL:
+		zv.Assert("callers-deadline-kept", tr.hadDL && tr.remain <= time.Hour && tr.remain > 50*time.Minute)
+	default:
 		zv.Assert("no-deadline-without-timeout", !tr.hadDL)
 	}
 	zv.Assert("request-context-cancelled-on-return", tr.ctx.Err() != nil)
